@@ -40,3 +40,4 @@ HARNESSES += [
 ]
 TRUSTED = ["ASSUMED CONTRACTS: percent-encoding crate (spec/percent.rs), core::str::from_utf8 (spec/utf8.rs), alloc::fmt::format stubbed", "serde's &str / String Deserialize impls executed, not specified"]
 ASSUMPTIONS = ["typed structs (serde-derived glue), the request's cookie iterator util::iter_cookies are NOT under a discharged contract; Set-Cookie: cookie NAME fixed (`sid`), directive VALUES fixed literals per shape; the byte_reader crate is executed, not specified"]
+JOBS = 6   # several of these queries need 5-10 GB: 16 at once exhaust the machine
